@@ -31,7 +31,9 @@ def template_check(repo, chk, rule, qual, name, what, ref=None, keep=()):
     """The function has exactly the effects of its reference form (modulo renaming, inlining of locals,
     commutativity / associativity, distribution over the semiring); logging-only extras are ignored."""
     fi = repo.func(qual)
-    ok, missing, extra = compare(fi, template_func(ref or ref_source(), name), keep=keep)
+    tail = fi.qual.split(':')[-1]
+    nested = tail.count('.') >= (2 if fi.cls else 1)
+    ok, missing, extra = compare(fi, template_func(ref or ref_source(), name, closure=nested), keep=keep)
     extra = [e for e in extra if not benign_extra(e)]
     ok = not missing and not extra
     if ok:
